@@ -1,8 +1,15 @@
 package main
 
 import (
+	"sync"
+	"time"
+
+	"google.golang.org/protobuf/proto"
+	"google.golang.org/protobuf/types/known/timestamppb"
+
 	"github.com/smart-core-os/sc-api/go/traits"
 	"github.com/smart-core-os/sc-api/go/types"
+	"github.com/smart-core-os/sc-golang/pkg/resource"
 	"github.com/smart-core-os/sc-golang/pkg/trait/accesspb"
 	"github.com/smart-core-os/sc-golang/pkg/trait/airqualitysensorpb"
 	"github.com/smart-core-os/sc-golang/pkg/trait/airtemperaturepb"
@@ -270,4 +277,119 @@ var stackTable = []stackRow{
 		r.Add(devName, onoffpb.WrapApi(onoffpb.NewModelServer(m)))
 		return onoffpb.WrapApi(r), m
 	}, "configured"},
+	// ---- a keyed model that starts with records and an armed collector (see rowExtras) -------------------------
+	{"hailpb", "NewModelServer", func() (any, any) {
+		var opts []resource.Option // default keep-alive (30 s); the collector's ticket is primed and never drawn by a Create
+		for _, h := range hailInitial() {
+			opts = append(opts, resource.WithInitialRecord(h.(*traits.Hail).Id, h))
+		}
+		m := hailpb.NewModel(opts...)
+		r := hailpb.NewApiRouter()
+		r.Add(devName, hailpb.WrapApi(hailpb.NewModelServer(m)))
+		return hailpb.WrapApi(r), m
+	}, "collector"},
+	// ---- routers that create their clients on first use (generated WithXxxApiClientFactory): see gatedRows --------
+	{"onoffpb", "NewModelServer", func() (any, any) { return gatedRows["onoffpb.NewModelServer+factory"](&gate{}), nil }, "factory"},
+	{"airtemperaturepb", "NewModelServer", func() (any, any) { return gatedRows["airtemperaturepb.NewModelServer+factory"](&gate{}), nil }, "factory"},
+	{"fanspeedpb", "NewModelServer", func() (any, any) { return gatedRows["fanspeedpb.NewModelServer+factory"](&gate{}), nil }, "factory"},
+	{"modepb", "NewModelServer", func() (any, any) { return gatedRows["modepb.NewModelServer+factory"](&gate{}), nil }, "factory"},
+	{"lightpb", "NewModelServer", func() (any, any) { return gatedRows["lightpb.NewModelServer+factory"](&gate{}), nil }, "factory"},
+	{"countpb", "NewMemoryDevice", func() (any, any) { return gatedRows["countpb.NewMemoryDevice+factory"](&gate{}), nil }, "factory"},
+}
+
+// rowExtra: what a keyed session has to know about a configured row.
+type rowExtra struct {
+	// Initial lists the records the model starts with (fresh copies)
+	Initial func() []proto.Message
+	// NoCreate: the session creates no further items. hailpb's collector of arrived hails is a server-initiated Delete
+	// that runs at the end of CreateHail (at most once per keep-alive): with the collector armed a Create may
+	// legitimately delete every hail whose arrive_time is old; a history of Get/Update/Pull never deletes anything
+	NoCreate bool
+}
+
+var rowExtras = map[string]rowExtra{
+	"hailpb.NewModelServer+collector": {Initial: hailInitial, NoCreate: true},
+}
+
+// hailInitial: one hail that is still on its way and one that arrived long ago (and is collectable from the start).
+func hailInitial() []proto.Message {
+	return []proto.Message{
+		&traits.Hail{Id: "h1", State: traits.Hail_CALLED, Origin: &traits.Hail_Location{Name: "a"}},
+		&traits.Hail{Id: "h2", State: traits.Hail_ARRIVED, Origin: &traits.Hail_Location{Name: "b"}, ArriveTime: timestamppb.New(time.Unix(1000, 0))},
+	}
+}
+
+// gate sits inside the client factory of a router built with WithXxxApiClientFactory: when armed, the FIRST factory
+// call parks (the request that caused it has missed the registry and is creating its client) until released; later
+// calls pass. Unarmed it does nothing.
+type gate struct {
+	mu      sync.Mutex
+	armed   bool
+	parked  chan struct{}
+	release chan struct{}
+	calls   int
+}
+
+func (g *gate) arm() {
+	g.mu.Lock()
+	defer g.mu.Unlock()
+	g.armed, g.parked, g.release = true, make(chan struct{}), make(chan struct{})
+}
+
+func (g *gate) enter() {
+	g.mu.Lock()
+	g.calls++
+	if !g.armed {
+		g.mu.Unlock()
+		return
+	}
+	g.armed = false
+	p, r := g.parked, g.release
+	g.mu.Unlock()
+	close(p)
+	select {
+	case <-r:
+	case <-time.After(5 * time.Second):
+	}
+}
+
+// gatedRows builds WrapApi(NewApiRouter(WithXxxApiClientFactory(f))) where f creates WrapApi(server) on demand, for
+// any name, passing through the gate first.
+var gatedRows = map[string]func(g *gate) any{
+	"onoffpb.NewModelServer+factory": func(g *gate) any {
+		return onoffpb.WrapApi(onoffpb.NewApiRouter(onoffpb.WithOnOffApiClientFactory(func(string) (traits.OnOffApiClient, error) {
+			g.enter()
+			return onoffpb.WrapApi(onoffpb.NewModelServer(onoffpb.NewModel())), nil
+		})))
+	},
+	"airtemperaturepb.NewModelServer+factory": func(g *gate) any {
+		return airtemperaturepb.WrapApi(airtemperaturepb.NewApiRouter(airtemperaturepb.WithAirTemperatureApiClientFactory(func(string) (traits.AirTemperatureApiClient, error) {
+			g.enter()
+			return airtemperaturepb.WrapApi(airtemperaturepb.NewModelServer(airtemperaturepb.NewModel())), nil
+		})))
+	},
+	"fanspeedpb.NewModelServer+factory": func(g *gate) any {
+		return fanspeedpb.WrapApi(fanspeedpb.NewApiRouter(fanspeedpb.WithFanSpeedApiClientFactory(func(string) (traits.FanSpeedApiClient, error) {
+			g.enter()
+			return fanspeedpb.WrapApi(fanspeedpb.NewModelServer(fanspeedpb.NewModel(fanspeedpb.WithPresets(fanspeedpb.Preset{Name: "a", Percentage: 25}, fanspeedpb.Preset{Name: "b", Percentage: 75})))), nil
+		})))
+	},
+	"modepb.NewModelServer+factory": func(g *gate) any {
+		return modepb.WrapApi(modepb.NewApiRouter(modepb.WithModeApiClientFactory(func(string) (traits.ModeApiClient, error) {
+			g.enter()
+			return modepb.WrapApi(modepb.NewModelServer(modepb.NewModel())), nil
+		})))
+	},
+	"lightpb.NewModelServer+factory": func(g *gate) any {
+		return lightpb.WrapApi(lightpb.NewApiRouter(lightpb.WithLightApiClientFactory(func(string) (traits.LightApiClient, error) {
+			g.enter()
+			return lightpb.WrapApi(lightpb.NewModelServer(lightpb.NewModel())), nil
+		})))
+	},
+	"countpb.NewMemoryDevice+factory": func(g *gate) any {
+		return countpb.WrapApi(countpb.NewApiRouter(countpb.WithCountApiClientFactory(func(string) (traits.CountApiClient, error) {
+			g.enter()
+			return countpb.WrapApi(countpb.NewMemoryDevice()), nil
+		})))
+	},
 }
